@@ -65,6 +65,7 @@ type histRun struct {
 	codeEdited bool // something other than source files / generated files was edited since the last process
 	// keepFailedReload: a project whose Reload failed is kept and reloaded again, as Watch does
 	keepFailedReload bool
+	lastReloadFailed bool
 }
 
 func newHistRun(c *simcheck.Ctx, sc *histScenario) (*histRun, error) {
@@ -183,7 +184,7 @@ func (h *histRun) buildNamed(name string, i int, op *opSpec, pc procCfg, hook fu
 			h.w.ctx.St.Count("edits_between_two_runs_of_one_process", 1)
 		}
 	}
-	if op.Keep && h.lastProj != nil && !h.lastIndex && !h.codeEdited && sameArgs(h.lastArgs, bo.Args) {
+	if op.Keep && h.lastProj != nil && !h.lastReloadFailed && !h.lastIndex && !h.codeEdited && sameArgs(h.lastArgs, bo.Args) {
 		bo.Keep = h.lastProj
 		h.w.ctx.St.Count("run_again_on_loaded_project", 1)
 	} else if op.Reload && h.lastProj != nil && !h.lastIndex && sameArgs(h.lastArgs, bo.Args) {
@@ -193,11 +194,15 @@ func (h *histRun) buildNamed(name string, i int, op *opSpec, pc procCfg, hook fu
 	}
 	res := h.w.process(name, pc, bo, hook)
 	h.lastProj, h.lastArgs, h.lastIndex = nil, bo.Args, bo.PreferIndex
+	h.lastReloadFailed = false
 	h.codeEdited = false
 	if res.LoadErr == nil && res.Sim.Failure == nil && !res.Sim.Crashed && !res.Sim.Stuck {
 		h.lastProj = res.Proj
 	} else if h.keepFailedReload && bo.Reuse != nil && res.LoadErr != nil && res.Sim.Failure == nil && !res.Sim.Crashed && !res.Sim.Stuck {
+		// (kept only to be reloaded again, as Watch does - nothing runs on a project whose
+		// reload failed half-way)
 		h.lastProj = bo.Reuse
+		h.lastReloadFailed = true
 	}
 	h.w.ctx.Sim(res.Sim, simcheck.ScenarioHash(h.p), pc.Strategy)
 	return res
